@@ -11,6 +11,9 @@ import (
 
 	gsm "github.com/go-sourcemap/sourcemap"
 	"github.com/xjslang/xjs/ast"
+	"github.com/xjslang/xjs/compiler"
+	"github.com/xjslang/xjs/lexer"
+	"github.com/xjslang/xjs/parser"
 	"github.com/xjslang/xjs/sourcemap"
 	"github.com/xjslang/xjs/token"
 
@@ -187,7 +190,74 @@ func srcPos(ch *kernel.Chooser, prev int) int {
 	}
 }
 
+var tinyPrograms = []string{
+	"let a = 1",
+	"function f(x, y) {\n  return x + y\n}\nf(1, 2)",
+	"let name = obj.prop[idx]\nname = name + 1",
+	"if (a) {\n  b(c)\n} else {\n  d = e\n}",
+	"for (let i = 0; i < n; i++) {\n  total += i\n}",
+	"let s = `multi\nline`\nlet t = 'x'",
+	"while (k) { k-- }",
+	"let o = {p: 1, q: [2, 3]}",
+}
+
+// compilerClient: the mapper's other client is the compiler. One compiler with a source map compiles
+// several programs in a seeded order; every map must decode to exactly what a fresh compiler records
+// for that program (a map is the record of ONE compilation).
+func (e *Engine) compilerClient(ch *kernel.Chooser, st *kernel.Stats) kernel.RunResult {
+	st.Inc("client.compiler")
+	pretty := ch.Bool(1, 2)
+	mk := func() *compiler.Compiler {
+		c := compiler.New()
+		if pretty {
+			c = c.WithPrettyPrint()
+		}
+		return c.WithSourceMap()
+	}
+	shared := mk()
+	n := 2 + ch.Choose(4)
+	res := kernel.RunResult{Evals: int64(n), Steps: int64(n), Nontrivial: true}
+	var order []int
+	for i := 0; i < n; i++ {
+		k := ch.Choose(len(tinyPrograms))
+		order = append(order, k)
+		p := parser.NewBuilder(lexer.NewBuilder()).Build(tinyPrograms[k])
+		prog, err := p.ParseProgram()
+		if err != nil {
+			continue
+		}
+		got := shared.Compile(prog).SourceMap
+		want := mk().Compile(prog).SourceMap
+		res.Fingerprint = kernel.Mix(res.Fingerprint, uint64(k)+1)
+		if got == nil || want == nil {
+			continue
+		}
+		problem := ""
+		gs, gerr := Decode(got.Mappings)
+		ws, werr := Decode(want.Mappings)
+		switch {
+		case got.Version != 3:
+			problem = fmt.Sprintf("version = %d", got.Version)
+		case gerr != nil:
+			problem = fmt.Sprintf("mappings %q does not decode: %v", got.Mappings, gerr)
+		case werr != nil:
+			problem = ""
+		case fmt.Sprint(gs) != fmt.Sprint(ws) || fmt.Sprint(got.Names) != fmt.Sprint(want.Names):
+			problem = fmt.Sprintf("compilation #%d of this compiler (program %q) gave mappings %q names %q; a fresh compiler records %q names %q", i+1, tinyPrograms[k], got.Mappings, got.Names, want.Mappings, want.Names)
+		}
+		if problem != "" {
+			res.Violations = append(res.Violations, kernel.Violation{Property: "C09", Kind: "client", Signature: "compiler-client|map-is-not-the-record-of-this-compilation",
+				Detail: problem, Materialised: map[string]any{"programs_in_order": order, "pretty": pretty}})
+			break
+		}
+	}
+	return res
+}
+
 func (e *Engine) Run(prop string, ch *kernel.Chooser, st *kernel.Stats) kernel.RunResult {
+	if ch.Bool(1, 16) {
+		return e.compilerClient(ch, st)
+	}
 	nOps := 1 + ch.Choose(40)
 	if ch.Bool(1, 10) {
 		nOps += ch.Choose(160)
